@@ -477,6 +477,10 @@ impl IpTransports {
     }
 }
 
+#[cfg(kani)]
+#[path = "/verif/kani/iroh/ip.rs"]
+mod verif_kani;
+
 #[cfg(test)]
 mod tests {
     use super::*;
